@@ -541,6 +541,7 @@ func (w *walker) assign(x *ast.AssignStmt, st *State) *State {
 		case *ast.StarExpr:
 			st = w.expr(le.X, st)
 		}
+		w.record(l, st)
 	}
 	w.res.at[x] = st
 	{
